@@ -59,6 +59,9 @@ func runC04(c *core.Ctx) *core.Outcome {
 	if cfg.OutputSize > 0 && cfg.OutputSize < 40 {
 		cfg.OutputSize = 60 // multi-page nodes, not refused renders, are the point here
 	}
+	if t.Chance(1, 2500) {
+		return c04Marathon(c, o, cfg)
+	}
 	// one run in 60 is a deep one: two nodes that descend into each other, a stack of up to 128
 	// entries (the limit the library enforces is not approached from above here: C08 does that)
 	deep := t.Chance(1, 60)
@@ -204,4 +207,46 @@ func runC04(c *core.Ctx) *core.Outcome {
 	}
 	o.Nontrivial = nk >= 2 && rel
 	return finishModel(o, c, r)
+}
+
+// c04Marathon: '>' many thousand times in a row on one node. The table says '>' changes only the page
+// index, by one; nothing in it stops at any particular index (what the renderer makes of a page
+// that does not exist is another matter: the request reports a render error, the position moves).
+func c04Marathon(c *core.Ctx, o *core.Outcome, cfg world.Cfg) *core.Outcome {
+	t := c.T
+	a := &app.App{Root: "root", Labels: map[string]map[string]string{}}
+	a.Nodes = append(a.Nodes, &app.Node{Name: "root", Kind: app.KMenu, Tpl: map[string]string{"": "@root|$"}, Code: []app.Inst{
+		{Op: app.HALT}, {Op: app.INCMP, A: ">", B: "1"}, {Op: app.INCMP, A: "<", B: "2"}}})
+	a.Nodes = append(a.Nodes, &app.Node{Name: "_catch", Kind: app.KCatch, Tpl: map[string]string{"": "@_catch|oops$"}, Code: []app.Inst{{Op: app.HALT}, {Op: app.MOVE, A: "_"}}})
+	a.Index()
+	cfg.Backend = world.BackMem
+	cfg.OutputSize = 0
+	cfg.First = false
+	persisted := t.Chance(1, 3)
+	w := world.New(a, cfg)
+	w.UseBackend()
+	defer w.Close()
+	s := w.NewSession("s", persisted)
+	n := []int{32800, 33000, 40000, 300}[t.Int(4)]
+	s.Request(nil, persisted)
+	o.Probes["page_index_marathon"]++
+	for k := 1; k <= n; k++ {
+		st := s.Request([]byte("1"), persisted && k%64 == 0)
+		o.Counts["requests"]++
+		if st.Panic != "" {
+			o.Probes["foreign_panic"]++
+			return finish(o, w)
+		}
+		if st.ExecErr != "" {
+			o.Scenario = map[string]interface{}{"requests": k, "persisted": persisted}
+			return finish(o, w).Fail("wrong-page-index", k, map[string]string{"move": "lateral-marathon"}, "the %d-th '>' in a row on node root fails with %q; '>' changes only the page index, by one", k, st.ExecErr)
+		}
+		if p, idx := s.Position(); len(p) != 1 || p[0] != "root" || int(idx) != k {
+			o.Scenario = map[string]interface{}{"requests": k, "persisted": persisted}
+			return finish(o, w).Fail("wrong-page-index", k, map[string]string{"move": "lateral-marathon"}, "after %d '>' in a row on node root the position is %v index %d, the table gives [root] index %d", k, p, idx, k)
+		}
+	}
+	o.States = append(o.States, h64("marathon", n, persisted))
+	o.Nontrivial = true
+	return finish(o, w)
 }
